@@ -28,3 +28,31 @@ CHECKS = {
                 'API calls and the numbers are the only unbounded part, which the solver covers for all values.',
     },
 }
+
+_LINE = ('Bounded model checking of real device models: each listed line model (real Source/PartHandler/PartProcessor/Buffer/Sink/... '
+         'objects under the real event queue) is executed symbolically by CrossHair+z3 with all cycle times, delays and fault '
+         'instants symbolic and every tie-break order, path-exhaustively within a CPU budget; ')
+CHECKS.update({
+    'C02': {'harnesses': ['harness.line_jobs'],
+            'text': _LINE + 'after every executed event a census places every generated part in exactly one of {device slot, buffer, '
+                    'batch under construction, sink, reported lost by one failure}, single-slot devices hold at most one part and '
+                    'sources stay within their budget.'},
+    'C03': {'harnesses': ['harness.line_jobs'],
+            'text': _LINE + 'at every instant at which the clock is about to advance, every ready part (finished output of an operational '
+                    'device, source output with budget, buffer head whose delay elapsed) is offered to its downstream list on a deep '
+                    'copy of the whole system using the real give_part; an acceptance is a lost wake-up. An exception or an event '
+                    'budget overrun in a well-posed run is reported as non-termination.'},
+    'C05': {'harnesses': ['harness.line_jobs'], 
+            'text': _LINE + 'after every event level() equals the stored leaf parts and stays within capacity, departures are a prefix of '
+                    'the previous content (FIFO) and happen no earlier than arrival + minimum delay (exact on the integer grid); the '
+                    'IEEE-754 delay guard is a separate bit-precise lemma (cvc5, QF_BVFP).'},
+    'C06': {'harnesses': ['harness.line_jobs'],
+            'text': _LINE + 'an online remaining-time tracker per handler/processor (cycle time + one-shot offset floored at zero at acceptance, '
+                    'stopped at an observed maintenance shutdown, re-armed at the observed restore) requires each part to reach the '
+                    'output slot exactly when the remaining time hits zero, never while down, never twice, a failure to end in a loss; '
+                    'source supplies and sink receipts are paced by their cycle times.'},
+    'C13': {'harnesses': ['harness.line_jobs'],
+            'text': _LINE + 'shutdown/restored callbacks (two per kind, order and multiplicity checked), is_operational(), the failure log, '
+                    'lost parts, the finished part kept through a failure, no-op repeated shutdown/restore, uptime and utilization '
+                    'against integrals accumulated online, and default work orders keeping the target down for exactly their duration.'},
+})
